@@ -223,3 +223,157 @@ theorem src_head_injective {a : AssocSpec} {l : ALinks} (hinv : AInv a l) (hone 
   | _ :: _ :: _, hlen, _, _ => simp [hl] at hlen
 
 end Pyx.Reflexive
+
+/-! ### extension: the state-level sort computes the abstract one (link to C09's key resolution and C02's invariant) -/
+namespace Pyx.Reflexive
+open Pyx.Meta Pyx.Query
+
+/-- association number `i` of the schema is a reflexive association `a` on class `k`, with two different
+    phrases; the link keys of class `k` are pairwise distinct and no other association carries its rel id -/
+structure ReflexiveAt (sch : Schema) (i : Nat) (a : AssocSpec) (k : Kind) : Prop where
+  get : sch[i]? = some a
+  src : a.srcKind = k
+  tgt : a.tgtKind = k
+  phr : a.srcPhrase ≠ a.tgtPhrase
+  keys : KeysDistinct (linkEntriesFrom k 0 sch)
+  relUnique : ∀ j b, sch[j]? = some b → b.rel = a.rel → j = i
+
+theorem lookup_srcPhrase {sch : Schema} {i : Nat} {a : AssocSpec} {k : Kind} (h : ReflexiveAt sch i a k) :
+    lookupKey (linkDict sch k) k a.rel a.srcPhrase =
+      some { toKind := k, rel := a.rel, phrase := a.srcPhrase, assoc := i, isSrc := false } := by
+  have hm := (mem_linkEntriesFrom k sch 0 i a h.get).2 h.src
+  rw [Nat.zero_add, h.tgt] at hm
+  rw [linkDict_distinct sch k h.keys]
+  exact lookupKey_of_mem _ _ h.keys hm
+
+theorem lookup_tgtPhrase {sch : Schema} {i : Nat} {a : AssocSpec} {k : Kind} (h : ReflexiveAt sch i a k) :
+    lookupKey (linkDict sch k) k a.rel a.tgtPhrase =
+      some { toKind := k, rel := a.rel, phrase := a.tgtPhrase, assoc := i, isSrc := true } := by
+  have hm := (mem_linkEntriesFrom k sch 0 i a h.get).1 h.tgt
+  rw [Nat.zero_add, h.src] at hm
+  rw [linkDict_distinct sch k h.keys]
+  exact lookupKey_of_mem _ _ h.keys hm
+
+/-- across the source phrase the partner is the head of the instance's target-link list, across the target
+    phrase the head of its source-link list -/
+theorem partner_srcPhrase {sch : Schema} {i : Nat} {a : AssocSpec} {k : Kind} (h : ReflexiveAt sch i a k)
+    (s : State) (x : Inst) (hx : s.kindOf x = k) :
+    partner sch s k a.rel a.srcPhrase x = ((s.links i).tgt x).head? := by
+  unfold partner
+  rw [navigate_direct' sch s x k a.rel a.srcPhrase _ (by rw [hx]; exact lookup_srcPhrase h)]
+  simp [followEntry]
+
+theorem partner_tgtPhrase {sch : Schema} {i : Nat} {a : AssocSpec} {k : Kind} (h : ReflexiveAt sch i a k)
+    (s : State) (x : Inst) (hx : s.kindOf x = k) :
+    partner sch s k a.rel a.tgtPhrase x = ((s.links i).src x).head? := by
+  unfold partner
+  rw [navigate_direct' sch s x k a.rel a.tgtPhrase _ (by rw [hx]; exact lookup_tgtPhrase h)]
+  simp [followEntry]
+
+theorem linkEntriesFrom_origin (k : Kind) : ∀ (sch : Schema) (j : Nat) (e : LinkEntry), e ∈ linkEntriesFrom k j sch →
+    ∃ (i' : Nat) (b : AssocSpec), sch[i']? = some b ∧ e.rel = b.rel ∧ (e.phrase = b.tgtPhrase ∨ e.phrase = b.srcPhrase)
+  | [], _, _, h => by simp [linkEntriesFrom] at h
+  | b :: rest, j, e, h => by
+    simp only [linkEntriesFrom, List.mem_append] at h
+    rcases h with (h | h) | h
+    · split at h
+      · simp only [List.mem_singleton] at h; subst h
+        exact ⟨0, b, rfl, rfl, Or.inl rfl⟩
+      · simp at h
+    · split at h
+      · simp only [List.mem_singleton] at h; subst h
+        exact ⟨0, b, rfl, rfl, Or.inr rfl⟩
+      · simp at h
+    · obtain ⟨i', b', hg, hr, hp⟩ := linkEntriesFrom_origin k rest (j + 1) e h
+      exact ⟨i' + 1, b', by simp only [List.getElem?_cons_succ]; exact hg, hr, hp⟩
+
+theorem otherPhrase_of {sch : Schema} {i : Nat} {a : AssocSpec} {k : Kind} (h : ReflexiveAt sch i a k)
+    (p q : String) (hpq : (p = a.srcPhrase ∧ q = a.tgtPhrase) ∨ (p = a.tgtPhrase ∧ q = a.srcPhrase)) :
+    otherPhrase sch k a.rel p = some q := by
+  have hpq' : p ≠ q := by
+    rcases hpq with ⟨rfl, rfl⟩ | ⟨rfl, rfl⟩
+    · exact h.phr
+    · exact fun e => h.phr e.symm
+  unfold otherPhrase
+  rw [linkDict_distinct sch k h.keys]
+  -- the entry under phrase `q` exists and matches
+  have hq : ∃ e ∈ linkEntriesFrom k 0 sch, e.toKind = k ∧ e.rel = a.rel ∧ e.phrase = q := by
+    rcases hpq with ⟨_, rfl⟩ | ⟨_, rfl⟩
+    · have hm := (mem_linkEntriesFrom k sch 0 i a h.get).1 h.tgt
+      exact ⟨_, hm, h.src, rfl, rfl⟩
+    · have hm := (mem_linkEntriesFrom k sch 0 i a h.get).2 h.src
+      exact ⟨_, hm, h.tgt, rfl, rfl⟩
+  cases hf : (linkEntriesFrom k 0 sch).find? (fun e => e.toKind == k && e.rel == a.rel && e.phrase != p) with
+  | none =>
+    exfalso
+    obtain ⟨e, he, h1, h2, h3⟩ := hq
+    have := List.find?_eq_none.mp hf e he
+    have hqp : ¬ q = p := fun e' => hpq' e'.symm
+    simp [h1, h2, h3, hqp] at this
+  | some e =>
+    have hpred := List.find?_some hf
+    have hmem := List.mem_of_find?_eq_some hf
+    simp only [Bool.and_eq_true, beq_iff_eq, bne_iff_ne, ne_eq] at hpred
+    obtain ⟨i', b, hg, hr, hp⟩ := linkEntriesFrom_origin k sch 0 e hmem
+    have hi : i' = i := h.relUnique i' b hg (hr ▸ hpred.1.2)
+    subst hi
+    have hb : b = a := by rw [h.get] at hg; exact (Option.some.inj hg).symm
+    subst hb
+    simp only [Option.map_some, Option.some.injEq]
+    rcases hpq with ⟨rfl, rfl⟩ | ⟨rfl, rfl⟩
+    · rcases hp with hp | hp
+      · exact hp
+      · exact absurd hp hpred.2
+    · rcases hp with hp | hp
+      · exact absurd hp hpred.2
+      · exact hp
+
+/-! congruence: the sort only looks at the partner functions on a set closed under `back` -/
+
+theorem walk_congr (back back' : Inst → Option Inst) (P : Inst → Prop) (set : List Inst) (first : Inst)
+    (hclosed : ∀ x y, P x → back x = some y → P y) (heq : ∀ x, P x → back' x = back x) :
+    ∀ (fuel : Nat) (x : Inst), P x → walk back' set first fuel x = walk back set first fuel x
+  | 0, _, _ => rfl
+  | fuel + 1, x, hx => by
+    unfold walk
+    rw [heq x hx]
+    cases hb : back x with
+    | none => rfl
+    | some y =>
+      simp only
+      by_cases hy : y = first
+      · simp [hy]
+      · simp only [hy, ↓reduceIte]
+        rw [walk_congr back back' P set first hclosed heq fuel y (hclosed x y hx hb)]
+
+theorem firsts_subset (across : Inst → Option Inst) (set : List Inst) : ∀ x ∈ firsts across set, x ∈ set := by
+  intro first hfirst
+  simp only [firsts] at hfirst
+  by_cases he : (set.filter (fun x => (across x).isNone)).isEmpty = true
+  · simp only [he, ↓reduceIte] at hfirst; exact List.mem_of_mem_take hfirst
+  · simp only [he, ↓reduceIte] at hfirst; exact (List.mem_filter.mp hfirst).1
+
+theorem flatMap_congr' {α β : Type} (f g : α → List β) : ∀ (l : List α), (∀ x ∈ l, f x = g x) →
+    l.flatMap f = l.flatMap g
+  | [], _ => rfl
+  | a :: l, h => by
+    simp only [List.flatMap_cons, h a (by simp), flatMap_congr' f g l (fun x hx => h x (by simp [hx]))]
+
+theorem sortReflexive_congr (across across' back back' : Inst → Option Inst) (P : Inst → Prop) (set : List Inst)
+    (hset : ∀ x ∈ set, P x) (hclosed : ∀ x y, P x → back x = some y → P y)
+    (hacross : ∀ x, P x → across' x = across x) (hback : ∀ x, P x → back' x = back x) (fuel : Nat) :
+    sortReflexive across' back' set fuel = sortReflexive across back set fuel := by
+  have hf : firsts across' set = firsts across set := by
+    unfold firsts
+    have : set.filter (fun x => (across' x).isNone) = set.filter (fun x => (across x).isNone) := by
+      apply List.filter_congr
+      intro x hx; rw [hacross x (hset x hx)]
+    rw [this]
+  unfold sortReflexive
+  rw [hf]
+  congr 1
+  apply flatMap_congr'
+  intro first hfirst
+  exact walk_congr back back' P set first hclosed hback fuel first (hset first (firsts_subset across set first hfirst))
+
+end Pyx.Reflexive
